@@ -65,6 +65,16 @@ def draw_table(r, form, delim=None, simple=False, strsafe=False, nrows=None, fie
         order = pick(r, ["<", ">"])
         fields = [{"n": "c%d" % i, "t": pick(r, types), "s": [], "o": order, "p": "simple"} for i in range(nf)]
         return {"fields": fields, "nrows": r.randrange(1, 6), "dseed": r.randrange(1 << 30)}
+    if fields is None and nrows is None and form == "txt" and not small and chance(r, 0.004):
+        # a text table whose rows, as an array, come to just about a whole number of MiB (itemsizes that do not divide
+        # 2**20: 12, 20, 24, 40 bytes): block-wise conversion of the array meets its last block here
+        types = pick(r, [["i4", "i8"], ["i8", "i8", "i8"], ["i4", "f8", "i8"], ["i8", "f8", "i8", "i8", "f8"], ["i2", "i2", "i8", "i8"]])
+        order = pick(r, [">", ">", "<"])
+        fields = [{"n": "m%d" % i, "t": t, "s": [], "o": order, "p": "simple"} for i, t in enumerate(types)]
+        item = sum(int(t[1:]) for t in types)
+        unit = (2 ** 20) // item
+        n = unit * pick(r, [1, 1, 2]) + pick(r, [-1, 0, 1, 2, 3, unit // 2])
+        return {"fields": fields, "nrows": n, "dseed": r.randrange(1 << 30)}
     if fields is None and nrows is None and form == "txt" and chance(r, 0.012):
         # very long text rows (a 2-d sub-array column of a few thousand numbers: 20 .. 120 k characters per row),
         # longer than any line buffer a reader may use
@@ -156,6 +166,7 @@ def caller_roundtrip(r, pfx, form, avoid, delims):
             ops.append({"k": "write", "h": h, "tab": tab, "hdr": hdr})
             if fform == "sfile" and chance(r, 0.12):
                 ops[-1]["badhdr"] = pick(r, ["pairs", "nocopy"])
+                ops[-1]["badhdr_other"] = chance(r, 0.5)
             for _ in range(r.randrange(1, 3)):
                 f = tab["fields"] if (form == "bin" or chance(r, 0.35)) else other_order(tab["fields"])
                 if chance(r, 0.08):
@@ -204,6 +215,15 @@ def caller_roundtrip(r, pfx, form, avoid, delims):
             if fform == "sfile" and chance(r, 0.25):
                 ops.append({"k": "header", "p": p, "entry": pick(r, HDR_READ)})
             else:
+                ops.append({"k": "read", "p": p, "entry": pick(r, SF_READ if fform == "sfile" else RAW_READ)})
+        if chance(r, 0.06):
+            # the file is replaced by the same columns in another order (same size), within one tick of a coarse file clock
+            f2 = list(tab["fields"])
+            if len(f2) > 1:
+                f2 = f2[1:] + f2[:1]
+            ops.append({"k": "create", "p": p, "form": fform, "delim": delim, "entry": pick(r, SF_CREATE if fform == "sfile" else RAW_CREATE),
+                        "tab": dict(tab, fields=f2, dseed=r.randrange(1 << 30)), "hdr": hdr, "same_tick": True})
+            for _ in range(r.randrange(1, 3)):
                 ops.append({"k": "read", "p": p, "entry": pick(r, SF_READ if fform == "sfile" else RAW_READ)})
         if chance(r, 0.15):
             # overwrite with a different table, then read again
@@ -409,6 +429,9 @@ def caller_history(r, pfx, avoid):
                     wop["nd"] = [nd[0], t["nrows"] // nd[0]]
                 if s["form"] == "sfile" and chance(r, 0.08):
                     wop["badhdr"] = pick(r, ["pairs", "nocopy"])
+                    wop["badhdr_other"] = chance(r, 0.5)
+                if chance(r, 0.05):
+                    wop["rename_after"] = True
                 ops.append(wop)
                 if s["fields"] is None:
                     s["fields"] = t["fields"]
